@@ -24,6 +24,23 @@ func ZzC08() {
 	}
 	whole := sc.from == sc.tailH && sc.to == sc.headH+1
 
+	if sc.valid() && sc.from == sc.tailH && !whole && zz.Bool("append.during") {
+		// the chain keeps growing at the head while the tail is pruned: the next header is appended (and the
+		// write queue drained) in the middle of the deletion, right before one chosen height is removed.
+		// With a small write batch this flushes whatever still sits in the batch at that moment.
+		at := sc.from + uint64(zz.Choice("append.at", int(sc.to-sc.from)))
+		done := false
+		main := s
+		s.OnDelete(func(hctx context.Context, h uint64) error {
+			if h == at && !done {
+				done = true
+				zz.Assert(main.Append(hctx, sc.chain[K]) == nil, "Append ok")
+				zz.Assert(main.Sync(hctx) == nil, "Sync ok")
+				zz.Reach("append-during-delete")
+			}
+			return nil
+		})
+	}
 	err := s.DeleteRange(ctx, sc.from, sc.to)
 	zz.ObserveBool("err_nil", err == nil)
 
